@@ -23,6 +23,35 @@ CHECKS = {
                       "configuration: two live guards, data race (happens-before), all-parked deadlock, reachable panic, try_lock failing "
                       "without having seen the lock held; plus 'all threads finish' as vacuity witness."),
                 note=M_NOTE + " Quick: 2 threads K=20..24 (four program mixes) and 3 threads K=20; thorough: up to K=40 / 4 threads."),
+    "C02": dict(engine="M", technique=M_TECH, design_ref="§4 C02",
+                text=("Bounded model checking over schedules, as C01, for RwLock: the MIR of read/write/try_read/try_write, read_contended, "
+                      "write_contended, spin loops, read_unlock/write_unlock, wake_writer_or_readers, wake_writer (futex wrappers inlined "
+                      "down to the syscall asm!) becomes thread automata; queries per configuration: a write guard live together with any "
+                      "other guard, data race on the protected data (happens-before), all-parked deadlock (lost wake-up), reachable panic, a "
+                      "try_* operation that parks or fails although the state it observed admitted it; plus 'all threads finish' as "
+                      "vacuity witness."),
+                note=M_NOTE + " Quick: every 2-thread mix {R,W},{W,W},{R,R},{tryR,W},{tryW,R} at K=18..20 (race query at K=16); the "
+                     "3-thread mix {W,W,R} K=20 is a BUG-HUNTING query only (sat = violation; unsat is out of the solver's reach at this size "
+                     "and no verdict is recorded as 'undecided', not as held). Thorough: K=24..28 and three 3-thread hunting queries."),
+    "C05": dict(engine="K", technique=K_TECH, design_ref="§14 (C05/C06)",
+                text=("Bounded model checking of the real thread::spawn, JoinHandle::join, JoinHandle::drop and the thread panic handler for ONE "
+                      "thread above a kernel stand-in for mmap/clone/set_tid_address/futex/munmap/exit: the schedule is a symbolic choice "
+                      "among the orders that do not commute (which compare-exchange on the sync flag comes first; whether the kernel's "
+                      "clear-tid write + wake lands before or while the parent is parked), the closure returns or panics, the handle is joined "
+                      "or dropped, the stack mmap or the clone may fail with any errno, a parked FUTEX_WAIT may return spuriously. "
+                      "Asserted: closure runs exactly once; join returns only after the thread's exit, with Some(value) / None iff "
+                      "panicked; a failed spawn returns Err (no handle whose join never returns)."),
+                note=K_NOTE_KERNEL + " Source hook `verif-hooks` on tiny-std. Kani has no threads: the reduction to non-commuting orders is "
+                     "argued in DESIGN.md §14 and is part of the claim; the __clone assembly is replaced by a model written from its "
+                     "comments. Result type u32 in quick; (), u128, 64-byte-aligned struct in thorough. One thread at a time."),
+    "C06": dict(engine="K", technique=K_TECH, design_ref="§14 (C05/C06)",
+                text=("Same harnesses as C05, resource side: in every non-commuting order of {closure returns, closure panics} x {handle joined, "
+                      "handle dropped before / while / after the thread finishes} the stack mapping is unmapped exactly once, the TLS block and "
+                      "the thread shared memory are freed exactly once with the layout they were allocated with, never before the other "
+                      "party's last access (the kernel's clear-tid write included: use-after-free and double free are CBMC pointer checks), "
+                      "and nothing the runtime allocated is left behind except a panicked thread's closure; a failed spawn leaves nothing."),
+                note=K_NOTE_KERNEL + " As C05. 'Thousands of threads in any mixture' is reduced to one thread from a clean state: threads "
+                     "share no runtime state apart from the allocator; histories and heap baseline over many threads are outside."),
     "C03": dict(engine="K", technique=K_TECH, design_ref="§4 C03",
                 text=("PARTIAL, stated: bounded model checking of (1) the allocator's size/index arithmetic at full 64-bit width and (2) single "
                       "malloc / memalign / calloc calls with symbolic size and alignment on the fresh heap above an OS model that may refuse "
@@ -146,11 +175,11 @@ def main():
         "version": 1,
         "setup_cmd": "./setup.sh",
         "hooks": {
-            "guard": "cargo feature `verif-hooks` on rusl",
-            "enable": "harness crates under engine_k depend on rusl with features = [\"verif-hooks\"] (path dependency on /repo/rusl)",
+            "guard": "cargo feature `verif-hooks` (on rusl and on tiny-std)",
+            "enable": "harness crates under engine_k depend on rusl (k_rusl) / tiny-std (k_thread) with features = [\"verif-hooks\"] (path dependencies on /repo); rusl: adds the constructor IoUring::verif_from_raw_parts; tiny-std: compiles thread::spawn without `symbols`, turns #[panic_handler] on the thread panic handler into cfg_attr(not(verif-hooks)), adds a stand-in for the TLS register and issues the handler's final munmap/exit through the `sc` crate",
             "baseline_off_cmd": "cd /repo && (cargo nextest run --workspace --no-fail-fast --offline || cargo test --workspace --no-fail-fast --offline)",
-            "source_commits": ["f2070f1"],
-            "add_only": True,
+            "source_commits": ["f2070f1", "253aae5", "9c4fbf0"],
+            "add_only": False,
         },
         "engines": [
             {"name": "K", "path": "engine_k", "serves_properties": [p for p in ALL if CHECKS.get(p, {}).get("engine") == "K"],
